@@ -595,6 +595,11 @@ class Parser(ExprParser):
                 chk = node.params[0]
                 if (chk.declarator is None and
                     chk.specifier == ["void"]):
+                    if (chk.const or chk.volatile or chk.init is not None
+                        or [k for k, v in chk.attrs.items() if v is not None]):
+                        self.error_msg(
+                            "'(void)' does not accept qualifiers,"
+                            " attributes or a value")
                     node.params = []
 
             #  method const
